@@ -283,12 +283,29 @@ def rescale (s : St ρ) (dif : Int) : St ρ :=
   { s with cur := { s.cur with clk := lshift s.cur.clk (-dif), step := lshift s.cur.step sh, ss := lshift s.cur.ss sh },
            fade := fadeLen }
 
-/-- lines 482–508: switch the interpolator to the neighbouring stage and start the cross-fade of the two streams. -/
-def switchStage (s : St ρ) (dif occ0 : Int) : St ρ :=
+/-- lines 482–500: a stage switch up to (not including) `enter_new_stage`: the streams are re-labelled and the FIFO
+    of the stage switched to is restarted / trimmed and refilled. -/
+def switchPrep (s : St ρ) (dif : Int) : St ρ :=
   let sn' := s.cur.sn + dif
   let s1 := { s with inc := decide (dif > 0), fo := s.cur, cur := { s.cur with sn := sn' } }
   let s2 := if dif > 0 then s1 else { s1 with sw := sn' }
-  rescale (enter (switchFifoB (switchFifoA s2 dif) dif) occ0) dif
+  switchFifoB (switchFifoA s2 dif) dif
+
+/-- lines 482–508: switch the interpolator to the neighbouring stage and start the cross-fade of the two streams
+    (`occ0`: the value of `occupancy0` that `enter_new_stage` is called with, `switchOcc`). -/
+def switchStage (s : St ρ) (dif occ0 : Int) : St ρ :=
+  rescale (enter (switchPrep s dif) occ0) dif
+
+/-- `occupancy0` after a stage switch.  At an up-switch to a half-band stage (`stage_inc && stage_num > 0`):
+    `occupancy0 = min(occupancy0, shiftl(max(0, fifo_occupancy − 2·HALF_FIR_LEN_2 − POLY_FIR_LEN_D/2), stage_num))` — no more than the
+    restarted stage can supply to the interpolator (repair of F36) — `& ~((1 << stage_num) − 1)` — in whole samples of that stage
+    (repair of F35).  Otherwise unchanged. -/
+def switchOcc (s : St ρ) (dif occ0 : Int) : Int :=
+  let p := switchPrep s dif
+  if dif > 0 ∧ p.cur.sn > 0 then
+    let avail := (p.stg p.cur.sn).occ - 2 * H2 - (PD / 2 : Nat)
+    min occ0 (shiftl (max 0 avail) p.cur.sn) / 2 ^ p.cur.sn.toNat * 2 ^ p.cur.sn.toNat
+  else occ0
 
 /-- result of the interpolation part of one chunk -/
 structure KRes (ρ : Type) where
@@ -369,20 +386,14 @@ def chunkFinish (l : LoopSt ρ) (sw shl : Bool) (k : KRes ρ) : LoopSt ρ :=
     nsw := l.nsw + (if sw then 1 else 0), nmis := l.nmis + (if k.mis then 1 else 0),
     nneg := l.nneg + (if backwards k.st then 1 else 0), nshl := l.nshl + (if shl then 1 else 0) }
 
-/-- `occupancy0 &= ~((1 << stage_num) - 1)` at an up-switch to a stage `> 0` (repair of F35): `occupancy0` stays a whole
-    number of samples of the new coarsest stage, so that the streams of a later cross-fade in the same call get `len`s
-    that are exact doubles. -/
-def alignOcc (occ0 sn dif : Int) : Int :=
-  if dif > 0 ∧ sn + dif > 0 then occ0 / 2 ^ (sn + dif).toNat * 2 ^ (sn + dif).toNat else occ0
-
 /-- one iteration of `while (odone0 < olen0)`; the flag says whether the loop goes on (`odone == olen`). -/
 def chunk (cfg : Cfg ρ) (olen0 : Nat) (l : LoopSt ρ) : LoopSt ρ × Bool :=
   let a := chunkStart cfg l.st (olen0 - l.od0)
   let dif := stageDif a.1
   let sw := doesSwitch a.1
-  let s := if sw then switchStage a.1 dif (alignOcc l.occ a.1.cur.sn dif) else a.1
+  let s := if sw then switchStage a.1 dif (switchOcc a.1 dif l.occ) else a.1
   let k := kernels s a.2 (chunkMn l dif) (chunkMx l dif (decide (a.1.cur.sn + dif < a.1.ns)))
-  ({ chunkFinish l sw (sw && negLeftShift a.1 dif) k with occ := if sw then alignOcc l.occ a.1.cur.sn dif else l.occ },
+  ({ chunkFinish l sw (sw && negLeftShift a.1 dif) k with occ := if sw then switchOcc a.1 dif l.occ else l.occ },
    decide ((k.od : Int) = k.olen))
 
 /-- the `while` loop; every continuing chunk delivers at least one frame, so `olen0 + 1` units of fuel suffice. -/
